@@ -1,0 +1,55 @@
+package webp_test
+
+import (
+	"bytes"
+	"image"
+	"image/color"
+	"math/rand"
+	"testing"
+
+	webp "github.com/deepteams/webp"
+)
+
+func TestZZStaleProbas(t *testing.T) {
+	for _, dims := range [][2]int{{800, 48}, {1024, 48}, {1600, 32}} {
+		w, h := dims[0], dims[1]
+		rng := rand.New(rand.NewSource(1))
+		img := image.NewNRGBA(image.Rect(0, 0, w, h))
+		for y := 0; y < h; y++ {
+			for x := 0; x < w; x++ {
+				c := color.NRGBA{120, 120, 120, 255}
+				if x < 80 {
+					c = color.NRGBA{uint8(118 + rng.Intn(20)), uint8(118 + rng.Intn(20)), uint8(118 + rng.Intn(20)), 255}
+				}
+				img.SetNRGBA(x, y, c)
+			}
+		}
+		opts := webp.DefaultOptions()
+		opts.Quality = 75
+		opts.Method = 4
+		var buf bytes.Buffer
+		if err := webp.Encode(&buf, img, opts); err != nil {
+			t.Fatal(err)
+		}
+		dec, err := webp.Decode(bytes.NewReader(buf.Bytes()))
+		if err != nil {
+			t.Errorf("%dx%d: decode error %v", w, h, err)
+			continue
+		}
+		var s float64
+		for y := 0; y < h; y++ {
+			for x := 96; x < w; x++ {
+				r, g, b, _ := dec.At(x, y).RGBA()
+				o := img.NRGBAAt(x, y)
+				for _, d := range []int{int(r>>8) - int(o.R), int(g>>8) - int(o.G), int(b>>8) - int(o.B)} {
+					s += float64(d * d)
+				}
+			}
+		}
+		mse := s / float64(3*(w-96)*h)
+		t.Logf("%dx%d size=%d mse=%.1f", w, h, buf.Len(), mse)
+		if mse > 4 {
+			t.Errorf("%dx%d: decoded picture is garbage (mse %.1f)", w, h, mse)
+		}
+	}
+}
